@@ -326,8 +326,13 @@ impl<'a> TermGen<'a> {
         if scope.is_empty() || self.rng.chance(1, 6) {
             return Tm::pay("k", self.rng.below(3) as u32);
         }
-        let maxk = self.p.max_leaf.min(4);
-        let k = 1 + self.rng.weighted(&[3, 5, 4, 1][..maxk]);
+        let k = if self.p.max_leaf > 4 {
+            // wide mode: leaves with up to six slots
+            1 + self.rng.weighted(&[1, 2, 3, 3, 4, 5][..self.p.max_leaf.min(6)])
+        } else {
+            let maxk = self.p.max_leaf.min(4);
+            1 + self.rng.weighted(&[3, 5, 4, 1][..maxk])
+        };
         let repeat = self.rng.chance(1, 8);
         let k_eff = if repeat { k } else { k.min(scope.len()) };
         let slots = self.pick_slots(k_eff, scope, repeat);
@@ -453,6 +458,27 @@ pub fn gen_history(rng: &mut Rng, p: &GenParams, with_probes: bool) -> Vec<Op> {
     let mut pool: Vec<Tm> = Vec::new(); // terms mentioned so far
     let nops = rng.range(1, p.max_ops);
     let mut tg_next = 0;
+    if p.max_leaf > 4 && rng.chance(3, 4) {
+        // wide mode: one e-node over (almost) all user slots, i.e. a class with up to 12 parameters
+        let mut sl = user.clone();
+        rng.shuffle(&mut sl);
+        let k1 = sl.len().min(6);
+        let a = Tm::leaf(&format!("p{k1}"), sl[..k1].to_vec());
+        let rest = &sl[k1..];
+        let t = if rest.is_empty() {
+            Tm::node("u", vec![], vec![(vec![], a)])
+        } else {
+            let b = Tm::leaf(&format!("p{}", rest.len().min(6)), rest[..rest.len().min(6)].to_vec());
+            if rng.chance(1, 3) {
+                let c = Tm::leaf("p2", vec![sl[0], sl[sl.len() - 1]]);
+                Tm::node("t", vec![], vec![(vec![], a), (vec![], b), (vec![], c)])
+            } else {
+                Tm::node("b", vec![], vec![(vec![], a), (vec![], b)])
+            }
+        };
+        pool.push(t.clone());
+        ops.push(Op::new("add").t(t));
+    }
     // often start with a few composite terms that share leaves (material for congruence)
     if rng.chance(1, 2) {
         let mut scope: Vec<S> = user.clone();
@@ -483,7 +509,8 @@ pub fn gen_history(rng: &mut Rng, p: &GenParams, with_probes: bool) -> Vec<Op> {
     for _ in 0..nops {
         let mut scope: Vec<S> = user.clone();
         rng.shuffle(&mut scope);
-        scope.truncate(rng.range(1.min(p.max_free), p.max_free.min(p.alphabet)));
+        let lo = if p.max_leaf > 4 { p.alphabet / 2 } else { 1.min(p.max_free) };
+        scope.truncate(rng.range(lo, p.max_free.min(p.alphabet)));
         let mut tg = TermGen { rng, p, next_binder: tg_next };
         let kind = tg.rng.weighted(&[3, 10, if with_probes { 3 } else { 0 }]);
         match kind {
